@@ -63,6 +63,8 @@ def concrete_cases(tlc_cases):
                     val = models.value_for(t, by)
                 if isinstance(val, str):
                     parts.append("/%s %s" % (f["key"], val))
+            if u == "u" and not has_other:
+                continue          # unknown entries are only kept by models with a catch-all
             if u == "u":
                 parts.append("/ZzUnknown (kept?) /ZzRef 50 0 R")
             d = "<< %s >>" % " ".join(parts)
